@@ -19,9 +19,14 @@ Ev(name) == l <= Len(Trace) /\ Trace[l].ev = name /\ l' = l + 1
 TNew ==
   /\ Ev("new")
   /\ LET e == Trace[l] IN
-     /\ New(e.keys, e.vals, e.hasvals, e.opt)
+     /\ New(e.keys, e.vals, e.hasvals, e.opt, e.err = "" /\ e.pan = "")
      /\ iters' = NoIters
-     /\ Report(l, "P:C08:outcome", IF e.pan # "" \/ e.err # NewOutcome(e.keys) THEN {1} ELSE {})
+     /\ Report(l, "P:C08:outcome", IF OutcomeAllowed(e.keys, e.err, e.pan) THEN {} ELSE {1})
+     \* the harness holds an instance iff the call returned one
+     /\ LayerM => Report(l, "M:outcome", LET acc == e.err = "" /\ e.pan = "" IN
+                                         IF acc # (IF acc THEN NewOutcome(e.keys, inst') = ""
+                                                   ELSE ModelAccepts(e.keys, e.vals, e.hasvals, e.opt))
+                                         THEN {1} ELSE {})
 
 TLoad ==
   /\ Ev("load")
